@@ -4,8 +4,9 @@
 EXTENDS Tokens, Json
 
 OffsetsQuick == {-1, 0, 1, 70}
+OffsetsKeys == {-1, 1}
 OffsetsThorough == {-3000, -61, -1, 0, 1, 59, 61, 3000}
-DurationsThorough == {0, 1, 5, 60, 61, 119, 120, 121, 3600, 3601, 7200, 86400, 604800, -5}
+DurationsThorough == {0, 1, 5, 61, 119, 120, 121, 3600, 3601, 86400, 604800, -5}
 
 Emit == (out.call \in {"validate", "getuser"}) =>
           PrintT(ToJson([call |-> out.call,
